@@ -177,7 +177,7 @@ def run_case(case):
         tol = 1e-9 * (1.0 + total) if gridded_tau else 0.0
         sig = "path-sum:%s" % ("gridded" if (st["grid"] and exact) else "gridded-tau" if st["grid"] else st["mode"])
         where = "call %d: %s, x0 %s handed over as %s, time as %s, %s" % (k, name, xs, st["x0_form"], st["time"]["kind"], "full_output" if st["full_output"] else "states only")
-        kept.append((where, sig, list(X), total, tol))
+        kept.append((where, sig, list(X), total, tol, [np.array(np.asarray(Xr, float), copy=True) for Xr in X]))
         for p, Xr in enumerate(X):
             Xa = np.asarray(Xr, float)
             sums = Xa.sum(axis=1)
@@ -215,12 +215,13 @@ def run_case(case):
             viol.append({"what": "the initial state held by the model is no longer the one that was assigned", "signature": "initial-state-modified:%s" % st["mode"],
                          "detail": "%s: model.initial_state=%s" % (where, held.tolist())})
     # every path of every call, again, after all the calls that followed
-    for where, sig, X, total, tol in kept:
+    for where, sig, X, total, tol, then in kept:
         for p, Xr in enumerate(X):
-            sums = np.asarray(Xr, float).sum(axis=1)
-            if np.any(np.abs(sums - total) > tol):
-                viol.append({"what": "a path returned by an earlier call no longer keeps the total after later calls", "signature": sig + ":kept",
-                             "detail": "%s, path %d: sums now %s total=%s" % (where, p, sums.tolist()[:20], total)})
+            now = np.asarray(Xr, float)
+            if now.shape != then[p].shape or not np.array_equal(now, then[p]):
+                sums = now.sum(axis=1) if now.ndim == 2 else now
+                viol.append({"what": "a path returned by an earlier call was changed by later calls on the model", "signature": sig + ":kept",
+                             "detail": "%s, path %d: sums now %s (total %s), first rows then %s now %s" % (where, p, sums.tolist()[:20], total, then[p][:2].tolist(), now[:2].tolist())})
                 break
     if fired > 0:
         nontrivial = True
@@ -233,6 +234,8 @@ def stoch_plan(case, T):
     """the calls of the stochastic session of a case: determined by the case (its own generator seeded by case["seed"]), so a
     replay reproduces them.  Each mode raw and gridded, in random order; x0 / t0 / time argument in a random form each time;
     a third of the calls on a population scaled by 20 (tau-leap paths without any first-reaction retry stay all-integer)."""
+    if case.get("plan"):
+        return [dict(st) for st in case["plan"]]        # a stored (corpus) case may spell its calls out
     r = random.Random(case["seed"] ^ 0x5DEECE66D)
     nS = len(case["x0"])
     forms = [f for f in SC.X0_FORMS if f != "scalar"]
